@@ -98,6 +98,7 @@ type Embedded struct{ X string }
 
 // Hello is a value-receiver method: promoted through the nil embedded pointer it cannot be called
 func (e Embedded) Hello() string { return "emb " + e.X }
+
 type WithNilEmbedded struct{ *Embedded }
 
 type countIter struct{ n, max int }
